@@ -180,6 +180,7 @@ def check(ctx):
         "in place and operands re-compared; at the end every step is repeated from equal arguments in the same session and in a "
         "fresh interpreter in reverse order. non-trivial = every step; distinct = (history, step)")
     proved = ctx.prove("props/C13.v", ["proofs/SessionFacts.v"])
+    proved = ctx.prove("props/C13h.v", ["proofs/PyHeapFacts.v", "proofs/HeapGenFacts.v"]) and proved      # heap level: no write to a pre-existing cell
     rng = random.Random(ctx.seed + 13)
     nh = 12 if ctx.quick else 400
     stats = {}
